@@ -85,6 +85,9 @@ Special == { VArr(<<VArr(<<VFlt(2)>>), VFlt(3), VArr(<<VFlt(0), VFlt(5)>>), VArr
                     VObj(<<[k |-> KA, v |-> VArr(<<VFlt(1), VFlt(2)>>)], [k |-> KB, v |-> VFlt(2)]>>),
                     VObj(<<[k |-> KA, v |-> VArr(<<>>)], [k |-> KB, v |-> VFlt(2)]>>),
                     VObj(<<[k |-> KA, v |-> VStr(KA)], [k |-> KB, v |-> VStr(KX)]>>)>>),
+             (* an array among the items an operand yields, before and after a scalar (lax unwraps it in place) *)
+             VArr(<<VArr(<<VArr(<<VFlt(1), VFlt(1)>>), VFlt(2)>>), VArr(<<VFlt(2), VArr(<<VFlt(1), VFlt(1)>>)>>),
+                    VArr(<<VArr(<<VFlt(1), VFlt(1)>>), VFlt(1)>>), VArr(<<VArr(<<VFlt(1), VFlt(1), VFlt(1)>>), VStr(KA), VFlt(2)>>)>>),
              (* rows for the subscripted conditions: hit-miss, miss-hit, miss-miss; member present first / second / never *)
              VArr(<<VArr(<<VFlt(2), VFlt(1)>>), VArr(<<VFlt(1), VFlt(2)>>), VArr(<<VFlt(1), VFlt(1)>>), VArr(<<VFlt(2)>>)>>),
              VArr(<<VArr(<<VObj(<<[k |-> KB, v |-> VFlt(1)]>>), VObj(<<[k |-> KA, v |-> VFlt(1)]>>)>>),
